@@ -1240,7 +1240,7 @@ def pure_entry_loops(rep: Report):
     first = zero_rule("H", formula_first, "first")
     first.modifies = tuple(first.modifies) + ("deflated_idx",)
     cases[QS] = {(QS, 2): at(MainAS(), None, "k<max_iterandm_active>1"), (QS, 3): at(first, "i", "range(1,m_active)"),
-                 (QS, 4): at(ShrinkA(), None, "m_active>1and_quat_scalar_abs(H[m_active-1,m_active-2])<=tol"),
+                 (QS, 4): at(HavocAll({"m_active": lambda it, fr: fr.vars["m_active"]}), None, "m_active>1and_quat_scalar_abs(H[m_active-1,m_active-2])<=tol"),
                  (QS, 5): at(HavocAll({"subdiag_norm": lambda it, fr: SReal.var(cur().fresh_name("sdn"))}), "i", "range(1,m_active)"),
                  (QS, 7): at(zero_rule("H_tmp", formula_second, "second"), "i", "range(1,m_active)"),
                  (QS, 9): at(HavocAll({"H_final": arb("Hfin")}), "i", "range(n)")}
@@ -1252,7 +1252,23 @@ def pure_entry_loops(rep: Report):
 
     def post(I, ctx, outcome, val, aux):
         return []
-    for qn, rules in cases.items():
+    class StopHere(LoopRule):
+        skip_body = True
+        modifies = ()
+
+        def establish(self, it, fr, start):
+            raise PathAbort("this case is about the loop before")
+
+        def havoc(self, it, fr, k):
+            pass
+    # the shrink loop of the real-expansion variant on its own (kept apart from the deflation loops: their paths would multiply)
+    cases[(QS, "shrink")] = {(QS, 2): at(MainAS(), None, "k<max_iterandm_active>1"),
+                             (QS, 3): at(HavocAll({"H": arb("Hdefl"), "deflated_idx": lambda it, fr: SymList(SInt.var(cur().fresh_name("nd")), "deflated_idx")}), "i", "range(1,m_active)"),
+                             (QS, 4): at(ShrinkA(), None, "m_active>1and_quat_scalar_abs(H[m_active-1,m_active-2])<=tol"),
+                             (QS, 5): at(StopHere(), "i", "range(1,m_active)"), (QS, 9): at(StopHere(), "i", "range(n)")}
+    for key_, rules in cases.items():
+        qn, cname = (key_, "entry_loops") if isinstance(key_, str) else (key_[0], "entry_loops." + key_[1])
+
         def setup(I, ctx, qn=qn):
             (n,) = dims(ctx, "n")
             ctx.assume(n >= 1, base=True)
@@ -1274,7 +1290,7 @@ def pure_entry_loops(rep: Report):
             re, im = [SReal.var(c.fresh_name("ev_re")) for _ in range(2)], [SReal.var(c.fresh_name("ev_im")) for _ in range(2)]
             return ix.IArr.from_fn([2], lambda vi: ix.CScal(ix.ite(SBool.mk(zi(vi[0]) == 0), re[0], re[1]), ix.ite(SBool.mk(zi(vi[0]) == 0), im[0], im[1])), cplx=True)
         lib_.np.table["linalg"].table["eigvals"] = eigvals
-        run_case(rep, P, qn, "entry_loops", setup, post, lib=lib_, contracts=contracts, loop_rules=rules, clauses=[], replay=replay_variants, timeout_s=60,
+        run_case(rep, P, qn, cname, setup, post, lib=lib_, contracts=contracts, loop_rules=rules, clauses=[], replay=replay_variants, timeout_s=60,
                  loop_end=True, max_paths=600)
 
 
